@@ -245,15 +245,16 @@ Proof.
   assert (Hold: forall d' x, In x (bucket_of t' d') -> (x = n /\ d' = d) \/ In x (bucket_of t d')).
   { intros d' x. unfold t'. rewrite bucket_of_set. destruct (N.eqb_spec d' d) as [->|]; [|auto].
     intros Hx. destruct (Hin _ Hx); auto. }
-  assert (Hconf: forall d' e, In e (bucket_of t d') -> conflicts n e = false).
-  { intros d' e He. unfold bucket_of in He. destruct (bk_get d' (rbuckets t)) as [b|] eqn:G; [|destruct He].
+  assert (Hconf: forall d' e, In e (bucket_of t d') -> nid e <> nid n -> conflicts n e = false).
+  { intros d' e He Hne. unfold bucket_of in He. destruct (bk_get d' (rbuckets t)) as [b|] eqn:G; [|destruct He].
     apply bk_get_in in G.
-    assert (X: existsb (fun kb => already_exists n (snd kb)) (rbuckets t) = false) by exact AE.
-    assert (already_exists n b = false).
-    { destruct (already_exists n b) eqn:Y; [|reflexivity].
-      assert (existsb (fun kb => already_exists n (snd kb)) (rbuckets t) = true) by (apply existsb_exists; exists (d', b); auto).
+    set (others := fun l : list node => filter (fun e => negb (bytes_eqb (nid e) (nid n))) l) in *.
+    assert (already_exists n (others b) = false).
+    { destruct (already_exists n (others b)) eqn:Y; [|reflexivity].
+      assert (existsb (fun kb => already_exists n (others (snd kb))) (rbuckets t) = true) by (apply existsb_exists; exists (d', b); auto).
       congruence. }
-    eapply already_exists_false; eassumption. }
+    eapply already_exists_false; [eassumption|]. unfold others. apply filter_In. split; [assumption|].
+    apply negb_true_iff. destruct (bytes_eqb (nid e) (nid n)) eqn:E; [|reflexivity]. apply bytes_eqb_iff in E. contradiction. }
   constructor.
   - exact (inv_self t I).
   - unfold t'. cbn [rbuckets]. apply bk_set_sorted. exact (inv_keys t I).
@@ -268,9 +269,11 @@ Proof.
   - intros d1 d2 a b Ha Hb Hid Hip.
     destruct (Hold _ _ Ha) as [[-> _]|Ha']; destruct (Hold _ _ Hb) as [[-> _]|Hb'].
     + congruence.
-    + pose proof (Hconf _ _ Hb') as C. unfold conflicts, same_ip in C. rewrite Hip, N.eqb_refl in C. cbn in C.
+    + assert (Hne: nid b <> nid n) by congruence.
+      pose proof (Hconf _ _ Hb' Hne) as C. unfold conflicts, same_ip in C. rewrite Hip, N.eqb_refl in C. cbn in C.
       apply orb_false_iff in C. destruct C as (C1 & C2). apply negb_false_iff in C1. auto.
-    + pose proof (Hconf _ _ Ha') as C. unfold conflicts, same_ip in C. rewrite <- Hip, N.eqb_refl in C. cbn in C.
+    + assert (Hne: nid a <> nid n) by congruence.
+      pose proof (Hconf _ _ Ha' Hne) as C. unfold conflicts, same_ip in C. rewrite <- Hip, N.eqb_refl in C. cbn in C.
       apply orb_false_iff in C. destruct C as (C1 & C2). apply negb_false_iff in C1. rewrite same_prefix_sym. auto.
     + apply (inv_ip t I _ _ _ _ Ha' Hb' Hid Hip).
 Qed.
